@@ -104,6 +104,12 @@ pub struct Scope {
     pub type_indexes: IndexMap<Type, u32>,
     /// The map from interface name (i.e. id) to encoded instance index.
     pub instances: IndexMap<String, u32>,
+    /// The map from interface to encoded instance index.
+    ///
+    /// A component type may both import and export an interface of the same
+    /// name; this map tells the two apart when a later item uses a type from
+    /// a specific one of them.
+    instance_ids: HashMap<InterfaceId, u32>,
     /// The map of import/export name to their alias indexes.
     type_aliases: IndexMap<String, u32>,
     /// The map of resource names to their encoded indexes.
@@ -159,6 +165,15 @@ impl State {
             self.scopes.pop().expect("expected a scope to pop"),
         );
         prev.encodable
+    }
+
+    /// Gets the encoded instance index to alias types of the given interface from.
+    fn instance_index(&self, id: InterfaceId, name: &str) -> Option<u32> {
+        self.current
+            .instance_ids
+            .get(&id)
+            .or_else(|| self.current.instances.get(name))
+            .copied()
     }
 
     fn used_type_index(&mut self, name: &str) -> Option<u32> {
@@ -300,7 +315,9 @@ impl<'a> TypeEncoder<'a> {
         for (name, used) in uses {
             let interface = &self.0[used.interface];
             let iid = interface.id.as_ref().expect("interface should have an id");
-            let instance = state.current.instances[iid];
+            let instance = state
+                .instance_index(used.interface, iid)
+                .expect("used interface should have been imported or exported");
             let index = state.current.encodable.type_count();
             let export: &String = used.name.as_ref().unwrap_or(name);
             let kind = interface.exports.get(export).unwrap();
@@ -399,7 +416,7 @@ impl<'a> TypeEncoder<'a> {
 
     fn import_deps(&self, state: &mut State, id: InterfaceId) {
         let iid = self.0[id].id.as_ref().expect("interface should have an id");
-        if state.current.instances.contains_key(iid) {
+        if state.instance_index(id, iid).is_some() {
             return;
         }
 
@@ -738,6 +755,7 @@ impl<'a> TypeEncoder<'a> {
                     log::debug!("instance index {import_index} ({iid}) is available for aliasing");
                     state.current.instances.insert(iid.clone(), import_index);
                 }
+                state.current.instance_ids.insert(id, import_index);
             }
             _ => panic!("expected only types, functions, and instance types"),
         }
@@ -775,12 +793,15 @@ impl<'a> TypeEncoder<'a> {
                 // Otherwise, we need to alias the source resource
                 // This should only occur for resources owned by interfaces
                 let source_index = state.current.encodable.type_count();
-                let iid = self.0[alias.owner.expect("should have owner")]
+                let owner = alias.owner.expect("should have owner");
+                let iid = self.0[owner]
                     .id
                     .as_deref()
                     .expect("expected an interface with an id");
                 state.current.encodable.alias(Alias::InstanceExport {
-                    instance: state.current.instances[iid],
+                    instance: state
+                        .instance_index(owner, iid)
+                        .expect("owner interface should have been imported or exported"),
                     kind: ComponentExportKind::Type,
                     name: self.0[source].name.as_str(),
                 });
@@ -827,6 +848,11 @@ impl<'a> TypeEncoder<'a> {
 
         let ty = kind.ty();
         let index = self.ty(state, ty, Some(name));
+        if let ItemKind::Instance(id) = kind {
+            // An exported instance may be used by the items exported after it
+            let export_index = state.current.encodable.instance_count();
+            state.current.instance_ids.insert(id, export_index);
+        }
         let index = Self::export_type(
             state,
             name,
